@@ -47,7 +47,7 @@ def make(recorder):
             raise RuntimeError('extractor failed')
         if k == 'ext_junk':
             return 5
-        return {'user_' + k: 1}
+        return {'user_' + k: 1, 'user_zero': 0, 'user_empty': '', 'user_false': False, 'user_list': []}          # falsy values are metadata like any other
 
     class Service(object):
         @recorder.operation(metadata_extractor=extractor)
@@ -147,8 +147,8 @@ for k in KINDS:
         want_inc = k == 'interrupt'; want_exc = k in ('raise', 'interrupt', 'assert')
         if inc != [want_inc] or (k != 'interrupt' and exc != [want_exc]):
             fail({'what': 'incomplete / exception flags do not follow the termination mode', 'run': k, 'metadata': m})
-        user = sorted(kk for kk in m if kk.startswith('user_'))
-        if user != (['user_' + k] if k not in ('ext_raises', 'ext_junk') else []):
+        user = {kk: v for kk, v in m.items() if kk.startswith('user_')}
+        if user != ({'user_' + k: 1, 'user_zero': 0, 'user_empty': '', 'user_false': False, 'user_list': []} if k not in ('ext_raises', 'ext_junk') else {}):
             fail({'what': 'user metadata is not exactly what this run extracted (or none when the extractor fails)', 'run': k, 'metadata': m})
 n = 0
 for ln in (2, 3):
